@@ -35,7 +35,17 @@ func c07Hunk(c *mon.Ctx, a, b any, h ref.Hunk, k int, o OptSet) string {
 		last = h.Path[len(h.Path)-1]
 	}
 	if hasIndex(h) {
-		return "" // index paths are relative to intermediate states: judged stepwise by the caller
+		// index paths are relative to intermediate states: judged stepwise by the caller. What can be
+		// judged here: a removed and an added container of the same kind at the same offset that share
+		// an equal member mention that equal sub-document.
+		if last.Kind == ref.KIndex {
+			for j := 0; j < len(h.Remove) && j < len(h.Add); j++ {
+				if sharesEqualPart(h.Remove[j], h.Add[j]) {
+					return fmt.Sprintf("list hunk replaces %s by %s wholesale although they share an equal member (equal sub-documents must not be mentioned)", ref.ToJSON(h.Remove[j]), ref.ToJSON(h.Add[j]))
+				}
+			}
+		}
+		return ""
 	}
 	va, _, oka := ref.Navigate(a, h.Path)
 	vb, _, okb := ref.Navigate(b, h.Path)
@@ -137,6 +147,27 @@ func c07Hunk(c *mon.Ctx, a, b any, h ref.Hunk, k int, o OptSet) string {
 		}
 	}
 	return ""
+}
+
+// sharesEqualPart: two objects with an equal value under the same key, or two arrays with a common
+// element (LCS > 0). Scalars and containers of different kinds never do.
+func sharesEqualPart(x, y any) bool {
+	switch a := x.(type) {
+	case map[string]any:
+		b, ok := y.(map[string]any)
+		if !ok {
+			return false
+		}
+		for k, v := range a {
+			if w, has := b[k]; has && ref.Eq(v, w, ref.List) {
+				return true
+			}
+		}
+	case []any:
+		b, ok := y.([]any)
+		return ok && ref.LCSLen(a, b) > 0
+	}
+	return false
 }
 
 func single(vs []any) any {
@@ -245,6 +276,14 @@ func init() {
 				case len(o.Keys) == 0 && i%5 == 4:
 					a, b = gen.DeepChainPair(c.R, prof, false)
 					c.Feature("deep_chain_pairs")
+				case o.Reading != ref.List && !o.Merge && i%5 == 3:
+					// mutated AND reordered at every level: members that only moved must not show up in hunks
+					a, b = PairFor(c.R, o, prof)
+					b = reorder(c.R, b, o.Reading == ref.Set)
+					if len(o.Keys) > 0 {
+						b = gen.Keyify(c.R, b, o.Keys)
+					}
+					c.Feature("reordered_pairs")
 				default:
 					if o.Merge && prof.Scalars[len(prof.Scalars)-1] == nil {
 						prof = gen.PObjects
